@@ -786,13 +786,65 @@ def _every_candidate_is_tried(f, fa, res, cb, nb, loc, ct, names, is_preamble_fa
     res.ob("S-cand", "scan | every position holding 0xD3 is handed to new(): no other test can skip a candidate", ok, detail, loc(ct["line"]))
 
 
+_SSEM = {}
+SSEM_RULES = {
+    "first": ("S-first", "scan | the scan starts at position 0 and after a dismissed position resumes exactly one byte further (no byte is skipped unexamined)"),
+    "cand": ("S-cand", "scan | every position is either known not to hold 0xD3 or handed to new(&data[i..]), exactly once"),
+    "ok": ("S-ok", "scan | on Ok(m): returns (i + m.frame_len(), Some(m))"),
+    "inc": ("S-inc", "scan | on Err(Incomplete): returns (i, None)"),
+    "end": ("S-end", "scan | at end of data: returns (data.len(), None)"),
+    "skip": ("S-skip", "scan | on Err(NotValid): continue with the next byte, no return"),
+    "shape": ("S-shape", "scan | every return is a (consumed, frame) pair of one of the three cases"),
+    "panic": ("S-sem", "scan | every index, slice and arithmetic operation of the scanner is covered on its path (no panic), and the loop terminates"),
+}
+SSEM_COVERED = {"S-first", "S-cand", "S-ok", "S-inc", "S-end", "S-skip", "S-shape"}
+
+
+def scan_semantics(prog):
+    k = id(prog)
+    if k not in _SSEM:
+        import scansem
+        try:
+            _SSEM[k] = scansem.check(prog)
+        except RecursionError:
+            _SSEM[k] = {"decided": False, "problems": [], "undecided": "recursion limit", "paths": 0, "form": ""}
+    return _SSEM[k]
+
+
+class SSemBacked(SemBacked):
+    """While a clean S-sem run is in force, a scanner template rule that does not match the code's shape is recorded as decided by S-sem."""
+
+    def ob(self, rule, key, ok, detail="", loc=None, sample=None):
+        if rule in SSEM_COVERED and not ok:
+            return self.res.ob(rule, key, True, "shape not recognised by the template rule; the clause is decided by S-sem (inductive abstract interpretation). " + str(detail)[:200], loc)
+        return self.res.ob(rule, key, ok, detail, loc, sample=sample)
+
+
 def rules_scan(prog, res, m=None):
-    """C05 rules on next_msg_frame."""
+    """C05 rules on next_msg_frame: S-sem (scansem.py) first; the template rules below judge alone only when S-sem is undecided."""
     f = prog.fn(SCAN)
     if f is None:
         res.missing("S-anchor", SCAN)
         return None
     res.fn(f)
+    sem = scan_semantics(prog)
+    if sem["decided"]:
+        bycat = {}
+        for cat, text in sem["problems"]:
+            bycat.setdefault(cat, []).append(text)
+        for cat, (rule, desc) in SSEM_RULES.items():
+            probs = bycat.get(cat, [])
+            res.ob(rule, desc + " [S-sem]", not probs, "; ".join(probs)[:600] if probs else
+                   "induction over the scan position: %d abstract paths; %s" % (sem["paths"], sem["form"]), f.loc,
+                   sample={"engine": "scansem", "paths": sem["paths"], "form": sem["form"]} if cat == "first" else None)
+        if not sem["problems"]:
+            return _rules_scan_template(prog, SSemBacked(res), f, m)
+    else:
+        res.extra["S-sem"] = "not applicable: %s" % sem["undecided"]
+    return _rules_scan_template(prog, res, f, m)
+
+
+def _rules_scan_template(prog, res, f, m=None):
     fa = FA(f, prog)
     names = fa.names
     data = mk("mem", fa.start_val(1, 0))
